@@ -1,0 +1,32 @@
+//go:build verif
+
+package uhppote
+
+import (
+	"time"
+
+	"github.com/uhppoted/uhppote-core/types"
+)
+
+// Driver exposes the (unexported) transport interface to verification harnesses.
+type Driver = driver
+
+// NewUHPPOTEWithDriver is NewUHPPOTE with the transport driver passed through 'wrap', so that a
+// verification harness can observe or replace what is handed to / returned from the network.
+func NewUHPPOTEWithDriver(
+	bindAddr types.BindAddr,
+	broadcastAddr types.BroadcastAddr,
+	listenAddr types.ListenAddr,
+	timeout time.Duration,
+	devices []Device,
+	debug bool,
+	wrap func(Driver) Driver) IUHPPOTE {
+
+	u := NewUHPPOTE(bindAddr, broadcastAddr, listenAddr, timeout, devices, debug).(*uhppote)
+
+	if wrap != nil {
+		u.driver = wrap(u.driver)
+	}
+
+	return u
+}
